@@ -1296,6 +1296,10 @@ class ProcessPoolExecutor(Executor):
             self._executor_manager_thread_wakeup.wakeup()
 
             self._ensure_executor_running()
+            # Wake it up again: it may already have handled the first wake-up
+            # and be waiting on the sentinels of the previous workers only,
+            # which would let the death of a newly spawned worker unnoticed.
+            self._executor_manager_thread_wakeup.wakeup()
             return f
 
     submit.__doc__ = Executor.submit.__doc__
